@@ -142,6 +142,7 @@ var specC29o = vstat.Spec[c29oCase]{
 	Rule:     "opener rule: pairs of peer ids from 1-3 byte seeds; the real pubsub controller runs on both sides of one link (fake MountedLink recording OpenMountedStream, fake directive instance delivering the link value, fake PubSub); oracle: exactly one side opens the stream (and registers as initiator); non-trivial = distinct peers",
 	Gen:      genC29o,
 	Check:    checkC29o,
+	Inflight: true,
 }
 
 func TestC29Opener(t *testing.T)       { vstat.Check(t, specC29o) }
@@ -150,7 +151,8 @@ func TestC29OpenerReplay(t *testing.T) { vstat.Replay(t, specC29o) }
 // ---- subscription lifecycle ----
 
 type c29Op struct {
-	// Op: sub, addh, rmh, rel, pub, slowrel (release while a delivery is in progress inside a slow handler)
+	// Op: sub, addh, rmh, rel, pub, slowrel (release while a delivery is in progress inside a slow handler),
+	// floodrel (the attached peer stops reading, 40 local publishes pile up towards it, the channel's subscriptions are released)
 	Op string `json:"op"`
 	Ch int    `json:"ch"`
 	K  int    `json:"k"`
@@ -165,7 +167,7 @@ func genC29(t *rapid.T) c29Case {
 	var c c29Case
 	for i := 0; i < n; i++ {
 		c.Ops = append(c.Ops, c29Op{
-			Op: rapid.SampledFrom([]string{"sub", "sub", "addh", "addh", "rmh", "rel", "rel", "pub", "pub", "pub", "slowrel"}).Draw(t, "op"),
+			Op: rapid.SampledFrom([]string{"sub", "sub", "addh", "addh", "rmh", "rel", "rel", "pub", "pub", "pub", "slowrel", "floodrel"}).Draw(t, "op"),
 			Ch: rapid.IntRange(0, 1).Draw(t, "ch"),
 			K:  rapid.IntRange(0, 5).Draw(t, "k"),
 		})
@@ -216,6 +218,8 @@ func checkC29(c c29Case) (o vstat.Outcome) {
 	}
 	h := attachHarnessPeer(n, 1, 21)
 	defer h.close()
+	// the attached peer wants both channels: local publishes are forwarded to it
+	_ = h.send(&floodsub.Packet{Subscriptions: []*floodsub.SubscriptionOpts{{Subscribe: true, ChannelId: c29Channels[0]}, {Subscribe: true, ChannelId: c29Channels[1]}}})
 	// warm up until the node processes our stream
 	warm := 0
 	if !waitFor(8*time.Second, func() bool {
@@ -278,6 +282,7 @@ func checkC29(c c29Case) (o vstat.Outcome) {
 	var hist []string
 	pubN := 0
 	relInFlight, twoSubs := false, false
+	backPressure := false
 	for _, op := range c.Ops {
 		switch op.Op {
 		case "sub":
@@ -348,6 +353,33 @@ func checkC29(c c29Case) (o vstat.Outcome) {
 					hd.active = false
 				}
 			}
+		case "floodrel":
+			var on []int
+			for i, s := range subs {
+				if s.live && s.ch == op.Ch {
+					on = append(on, i)
+				}
+			}
+			if len(on) == 0 {
+				continue
+			}
+			// back-pressure: the peer does not read for a while, 40 local publishes queue up towards it, and the
+			// last subscriptions of the channel are released meanwhile (any of this may block until the peer reads again)
+			h.pauseFor(400 * time.Millisecond)
+			for i := 0; i < 40; i++ {
+				_ = subs[on[0]].s.Publish([]byte(fmt.Sprintf("flood-%d-%d", len(hist), i)))
+			}
+			for _, si := range on {
+				subs[si].s.Release()
+				subs[si].live = false
+				for _, hd := range handlers {
+					if hd.sub == si {
+						hd.active = false
+					}
+				}
+			}
+			o.Classes = append(o.Classes, "release-under-back-pressure")
+			backPressure = true
 		case "slowrel":
 			// a subscription with two active handlers; a message is being delivered (first handler blocked) while Release runs
 			si := -1
@@ -497,7 +529,7 @@ func checkC29(c c29Case) (o vstat.Outcome) {
 			}
 		}
 	}
-	o.NonTrivial = relInFlight || twoSubs
+	o.NonTrivial = relInFlight || twoSubs || backPressure
 	if relInFlight {
 		o.Classes = append(o.Classes, "release-right-after-publish")
 	}
@@ -511,8 +543,9 @@ var specC29 = vstat.Spec[c29Case]{
 	Property: "C29",
 	Rule: "subscription lifecycle on one real FloodSub node with an attached harness peer: histories of 3-14 operations subscribe (<=3 live, two channels) / add handler / remove handler / release / publish-from-peer (followed by an in-order marker); " +
 		"oracle: a message sent after a handler was removed or its subscription released never reaches that handler, active handlers get each message exactly once; after every operation the peer has been told subscribe=true iff a local subscription on the channel remains (unsubscribe only after the last release; eventual, 3 s); non-trivial = a release right after a publish, or two subscriptions on one channel",
-	Gen:   genC29,
-	Check: checkC29,
+	Gen:      genC29,
+	Check:    checkC29,
+	Inflight: true,
 }
 
 func TestC29Subs(t *testing.T)       { vstat.Check(t, specC29) }
